@@ -99,6 +99,51 @@ def main(tier):
                     run.violation({'kind': 'oracle', 'detail': msg, 'corpus_index': i,
                                    'entry': repr(corpus[i])[:300], 'history_prefix': history[:history.index(i) + 1][-30:]})
         run.count(prints)
+        # a print that FAILS (the value's repr raises, so the fallback raises too) is part of the history as
+        # well: afterwards the objects it was printing - and everything else - print as before
+        class Flaky:
+            broken = True
+
+            def __repr__(self):
+                if Flaky.broken:
+                    raise RuntimeError('repr not available yet')
+                return 'Flaky()'
+        Flaky.__module__ = 'c19'
+        nfail = 0
+        for i in r.sample(range(n), min(n, 12 if tier == 'quick' else n)):
+            v = objs[i]
+            if not isinstance(v, (list, dict, tuple)) or not v:
+                continue
+            fl = Flaky()
+            holder = [v, {'inner': v, 'flaky': [fl]}]
+            Flaky.broken = False
+            with warnings.catch_warnings():
+                warnings.simplefilter('ignore')
+                first = [pformat(holder, **cfg) for cfg in CP.CFGS]
+                Flaky.broken = True
+                try:
+                    pformat(holder)
+                    raised = False
+                except RuntimeError:
+                    raised = True
+                Flaky.broken = False
+                again = [pformat(holder, **cfg) for cfg in CP.CFGS]
+                outs = [pformat(v, **cfg) for cfg in CP.CFGS]
+            nfail += 1
+            prints += 9
+            msg = None
+            if not raised:
+                msg = 'internal: the failing print did not fail'
+            elif again != first:
+                msg = 'after a print of it FAILED, the same value prints differently:\n%s\n--- before ---\n%s' % (
+                    again[0][:300], first[0][:300])
+            elif i in seen_out and outs != seen_out[i]:
+                msg = 'after a print of a container holding it failed, the value prints differently:\n%s' % outs[0][:300]
+            if msg:
+                viol += 1
+                if viol <= 3:
+                    run.violation({'kind': 'failed-print', 'detail': msg, 'corpus_index': i, 'entry': repr(corpus[i])[:300]})
+        run.coverage['failed_print_histories'] = nfail
         # the stateless model agrees with the implementation after all that history
         cases = [('after-history', e[1], cfg) for e in corpus if e[0] == 'model' for cfg in (dict(width=30), dict(width=79, indent=2))]
         res = PC.run_cases(cases)
@@ -117,7 +162,8 @@ def main(tier):
             'whose printer is registered lazily by name, its subclass, an eagerly registered class, nestings of these) x '
             '4 configurations. Reference: each entry printed FIRST in its own fresh interpreter (cold dispatch, cold '
             'caches, untouched layout constants). History in one interpreter: natural order, reversed, %d random '
-            'rounds with repetitions; every output must equal the fresh-interpreter one and every earlier output of the '
+            'rounds with repetitions, and prints that FAIL half-way (an element whose repr raises) followed by prints of '
+            'the same objects; every output must equal the fresh-interpreter one and every earlier output of the '
             'same call; a canonical deep snapshot (structure, identities, dict/deque order, default_factory, maps) of '
             'the value is compared before/after every print. Afterwards pformat is compared with the stateless model. '
             'non-trivial = entries with a fresh-interpreter reference' % (n, rounds))
